@@ -68,6 +68,13 @@ var c16Decoders = []string{
 	"pkg/stream.(*msgReceiver).ReadFully",
 }
 
+// verifiers of server-provided proofs: all slice accesses are in scope, not only byte slices
+var c16ProofVerifiers = map[string]bool{
+	"embedded/store.VerifyDualProof": true, "embedded/store.VerifyDualProofV2": true, "embedded/store.VerifyLinearProof": true,
+	"embedded/store.VerifyLinearAdvanceProof": true, "embedded/ahtree.EvalInclusion": true, "embedded/ahtree.EvalLastInclusion": true,
+	"embedded/htree.VerifyInclusion": true,
+}
+
 // callee contracts: on success, 0 <= result[ret] <= len(arg)
 var c16Contracts = map[string]contract{
 	"(embedded/store.attribute).deserialize": {ret: 0, arg: 0},
@@ -206,9 +213,21 @@ func c16(c *Ctx) {
 // c16Run decides the bounds obligations of the given decoders (shared by C16 and, for the tx-record decoders, C09).
 func c16Run(c *Ctx, pfx string, decoders []string, full bool) {
 	r := pfx + "/bounds"
-	scope := func(v ssa.Value) bool { return isByteSliceLike(v.Type()) }
+	byteScope := func(v ssa.Value) bool { return isByteSliceLike(v.Type()) }
+	// proof verifiers index slices of digests / sub-proofs supplied by an untrusted server: every slice counts
+	anyScope := func(v ssa.Value) bool {
+		if isByteSliceLike(v.Type()) {
+			return true
+		}
+		_, ok := v.Type().Underlying().(*types.Slice)
+		return ok
+	}
 	ndec, nobl := 0, 0
 	for _, name := range decoders {
+		scope := byteScope
+		if c16ProofVerifiers[name] {
+			scope = anyScope
+		}
 		f := c.mustFn(r, name)
 		if f == nil {
 			continue
